@@ -139,7 +139,12 @@ var docWords = []string{"does things", "is a type", "TODO later", "see Other", "
 func mixDoc(t *rapid.T, name string, tags TagSet) []string {
 	var lines []string
 	if rapid.Bool().Draw(t, "hasdoc") {
-		lines = append(lines, name+" "+rapid.SampledFrom(docWords).Draw(t, "docword"))
+		if rapid.IntRange(0, 5).Draw(t, "namedtwice") == 0 {
+			// the text behind the leading name starts with the name again (only the leading one is the name)
+			lines = append(lines, name+" "+name+"-like values, "+name+" for short")
+		} else {
+			lines = append(lines, name+" "+rapid.SampledFrom(docWords).Draw(t, "docword"))
+		}
 	}
 	tl := tags.Lines()
 	// tags may come before or after the prose
@@ -208,7 +213,15 @@ func genTypeDecl(t *rapid.T, name string, o modOpts, truth *PkgTruth, pkgLevelNa
 	case "struct":
 		n := rapid.IntRange(0, 3).Draw(t, "nfields")
 		for i := 0; i < n; i++ {
-			d.Fields = append(d.Fields, modspec.Field{Names: []string{fmt.Sprintf("F%d", i)}, Type: rapid.SampledFrom([]string{"int", "string", "[]byte", "map[string]int", "*int"}).Draw(t, "ftype")})
+			fld := modspec.Field{Names: []string{fmt.Sprintf("F%d", i)}, Type: rapid.SampledFrom([]string{"int", "string", "[]byte", "map[string]int", "*int"}).Draw(t, "ftype")}
+			switch rapid.IntRange(0, 3).Draw(t, "fielddoc") {
+			case 0:
+				// the text behind the leading field name starts with the name again
+				fld.Doc = []string{fmt.Sprintf("F%d F%d-encoded value, F%d for short", i, i, i)}
+			case 1:
+				fld.Doc = []string{fmt.Sprintf("F%d is field number %d", i, i)}
+			}
+			d.Fields = append(d.Fields, fld)
 		}
 	case "alias":
 		d.Type = rapid.SampledFrom([]string{"int", "string", "[]int", "struct{}", "error"}).Draw(t, "aliasto")
